@@ -54,14 +54,24 @@ struct WorldG : IWorld
         if (!asparse) boxA.template emplace<Spectra::DenseSymMatProd<S>>(&ctlA, Ad);
         else boxA.template emplace<Spectra::SparseSymMatProd<S>>(&ctlA, As);
     }
-    // the shift-and-invert operator on the pencil (first, second)
-    void shift_invert_A(bool first_sparse, bool second_sparse, const Mat& Fd, const SpMat& Fs, const Mat& Gd, const SpMat& Gs)
+    // the shift-and-invert operator on the pencil (first, second); variant bits 16 / 32 select the Upper triangle
+    // of the first / second matrix (full symmetric matrices are passed, so both options read the same values)
+    template <int UA, int UB>
+    void shift_invert_uplo(bool first_sparse, bool second_sparse, const Mat& Fd, const SpMat& Fs, const Mat& Gd, const SpMat& Gs)
     {
         using namespace Spectra;
-        if (!first_sparse && !second_sparse) boxA.template emplace<SymShiftInvert<S, Eigen::Dense, Eigen::Dense>>(&ctlA, Fd, Gd);
-        else if (!first_sparse && second_sparse) boxA.template emplace<SymShiftInvert<S, Eigen::Dense, Eigen::Sparse>>(&ctlA, Fd, Gs);
-        else if (first_sparse && !second_sparse) boxA.template emplace<SymShiftInvert<S, Eigen::Sparse, Eigen::Dense>>(&ctlA, Fs, Gd);
-        else boxA.template emplace<SymShiftInvert<S, Eigen::Sparse, Eigen::Sparse>>(&ctlA, Fs, Gs);
+        if (!first_sparse && !second_sparse) boxA.template emplace<SymShiftInvert<S, Eigen::Dense, Eigen::Dense, UA, UB>>(&ctlA, Fd, Gd);
+        else if (!first_sparse && second_sparse) boxA.template emplace<SymShiftInvert<S, Eigen::Dense, Eigen::Sparse, UA, UB>>(&ctlA, Fd, Gs);
+        else if (first_sparse && !second_sparse) boxA.template emplace<SymShiftInvert<S, Eigen::Sparse, Eigen::Dense, UA, UB>>(&ctlA, Fs, Gd);
+        else boxA.template emplace<SymShiftInvert<S, Eigen::Sparse, Eigen::Sparse, UA, UB>>(&ctlA, Fs, Gs);
+    }
+    void shift_invert_A(bool first_sparse, bool second_sparse, const Mat& Fd, const SpMat& Fs, const Mat& Gd, const SpMat& Gs)
+    {
+        const bool ua = (spec.variant & 16) != 0, ub = (spec.variant & 32) != 0;
+        if (!ua && !ub) shift_invert_uplo<Eigen::Lower, Eigen::Lower>(first_sparse, second_sparse, Fd, Fs, Gd, Gs);
+        else if (ua && !ub) shift_invert_uplo<Eigen::Upper, Eigen::Lower>(first_sparse, second_sparse, Fd, Fs, Gd, Gs);
+        else if (!ua && ub) shift_invert_uplo<Eigen::Lower, Eigen::Upper>(first_sparse, second_sparse, Fd, Fs, Gd, Gs);
+        else shift_invert_uplo<Eigen::Upper, Eigen::Upper>(first_sparse, second_sparse, Fd, Fs, Gd, Gs);
     }
 };
 
